@@ -18,7 +18,9 @@ import (
 	"sort"
 	"strings"
 	"testing"
+	"time"
 
+	"github.com/oklog/ulid/v2"
 	"github.com/prometheus/prometheus/model/labels"
 	"github.com/prometheus/prometheus/storage"
 	"github.com/prometheus/prometheus/tsdb"
@@ -237,11 +239,22 @@ func renderSpecs(specs []blockSpec) string {
 	return sb.String()
 }
 
-func genKnobs(rt *rapid.T, label string) storeKnobs {
+func genKnobs(rt *rapid.T, label string, bs *blockSet) storeKnobs {
 	k := defaultKnobs()
 	k.indexCache = rapid.SampledFrom([]int{0, 600, 4000, 1 << 20}).Draw(rt, label+"cache")
 	k.lazy = rapid.Bool().Draw(rt, label+"lazy")
-	k.estSeriesSize = rapid.SampledFrom([]uint64{0, 1, 4, 64, 65536}).Draw(rt, label+"est")
+	switch rapid.IntRange(0, 3).Draw(rt, label+"estMode") {
+	case 0: // option not set
+	case 1:
+		k.estFromStats = map[ulid.ULID]int64{}
+		for _, b := range bs.blocks {
+			k.estFromStats[b.id] = b.statsSeriesMax
+		}
+	case 2:
+		k.estSeriesSize = 65536
+	default:
+		k.estSeriesSize = rapid.SampledFrom([]uint64{16, 32, 64, 128}).Draw(rt, label+"est")
+	}
 	k.matchRatio = rapid.SampledFrom([]float64{0.05, 0.5, 0.9, 1}).Draw(rt, label+"ratio")
 	k.batchSize = rapid.SampledFrom([]int{1, 2, 3, 7, 64}).Draw(rt, label+"batch")
 	k.sampling = rapid.SampledFrom([]int{1, 2, 3, 8, 32, 64}).Draw(rt, label+"sampling")
@@ -256,17 +269,22 @@ func runSeries(st storepb.StoreServer, req *storepb.SeriesRequest) (*collectSrv,
 	return srv, err
 }
 
+var tBuild, tStore, tQuery, tClose, tRef time.Duration
+
 func TestVerifC10(t *testing.T) {
 	rec := kit.For(t, "C10")
+	defer func() { fmt.Printf("TIMING build=%v store=%v query=%v close=%v ref=%v\n", tBuild, tStore, tQuery, tClose, tRef) }()
 	maxQ := kit.Scale("c10queries", 30, 40)
 	rec.Check(t, func(rt *rapid.T) {
 		specs := genC10Blocks(rt, 4)
+		t0 := time.Now()
 		bs, err := buildBlockSet(specs)
 		if err != nil {
 			rt.Fatalf("harness: %v (%s)", err, renderSpecs(specs))
 		}
 		defer bs.close()
 		dmin, dmax, marks := bs.dataRange()
+		tBuild += time.Since(t0)
 
 		// history
 		nq := rapid.IntRange(10, maxQ).Draw(rt, "nq")
@@ -288,6 +306,7 @@ func TestVerifC10(t *testing.T) {
 			}
 		}
 		// reference answers (computed once per distinct query)
+		t4 := time.Now()
 		refs := make([]map[string]map[chunkKey]int, len(hist))
 		for i, q := range hist {
 			r, err := refRead(bs, q)
@@ -297,17 +316,21 @@ func TestVerifC10(t *testing.T) {
 			refs[i] = r
 		}
 
+		tRef += time.Since(t4)
 		nstores := rapid.IntRange(2, 3).Draw(rt, "nstores")
 		nontrivial := false
 		classes := map[string]bool{}
 		var knobsTxt []string
 		for si := 0; si < nstores; si++ {
-			k := genKnobs(rt, fmt.Sprintf("k%d_", si))
+			k := genKnobs(rt, fmt.Sprintf("k%d_", si), bs)
 			knobsTxt = append(knobsTxt, k.String())
+			t1 := time.Now()
 			ls, err := newBucketStore(bs.bkt, k)
 			if err != nil {
 				rt.Fatalf("harness: bucket store: %v", err)
 			}
+			tStore += time.Since(t1)
+			t2 := time.Now()
 			seen := map[string]bool{}
 			for qi, q := range hist {
 				var hits0 int64
@@ -362,7 +385,10 @@ func TestVerifC10(t *testing.T) {
 				}
 				seen[q.String()] = true
 			}
+			tQuery += time.Since(t2)
+			t3 := time.Now()
 			ls.close()
+			tClose += time.Since(t3)
 		}
 		if len(specs) > 1 {
 			classes["multi-block"] = true
